@@ -16,8 +16,15 @@ import (
 	"github.com/acquirecloud/golibs/kvs"
 )
 
-// Unit is the logical clock unit. Expirations are placed at half units, the clock moves in whole units.
-const Unit = time.Hour
+// Unit is the logical clock unit on the real clock / miniredis: expirations are placed at half units, the
+// clock moves in whole units; an hour keeps the milliseconds of real time that pass during a sequence
+// irrelevant. BubbleUnit is the unit under synctest virtual time, where no real time exists: a second, so
+// that thousands of sequences advancing thousands of units each stay far below the int64 nanosecond range
+// of the bubble's clock (an overflow there crashes the runtime with "bad g->status in ready").
+const (
+	Unit       = time.Hour
+	BubbleUnit = time.Second
+)
 
 type Op struct {
 	K    string   `json:"k"`              // Create Get GetMany Put PutMany Cas Delete List Wait Advance
@@ -62,6 +69,8 @@ var Values = [][]byte{nil, {}, []byte("x"), []byte("y")}
 type Backend struct {
 	Name string
 	S    kvs.Storage
+	// Unit of this backend's clock
+	Unit time.Duration
 	// Now returns the backend's current time (what the code under test will see / what TTLs are relative to).
 	Now func() time.Time
 	// Advance moves the backend's clock forward by n units.
@@ -162,7 +171,11 @@ func (m *Model) expiry(exp int) (has bool, half int64, at *time.Time) {
 	} else {
 		h = m.clockHalf - (2*int64(-exp) - 1)
 	}
-	t := m.be.Now().Add(time.Duration(h-m.clockHalf) * (Unit / 2))
+	u := m.be.Unit
+	if u == 0 {
+		u = Unit
+	}
+	t := m.be.Now().Add(time.Duration(h-m.clockHalf) * (u / 2))
 	return true, h, &t
 }
 
@@ -601,6 +614,9 @@ func (m *Model) Step(o Op) (vio *Vio) {
 	case "Wait":
 		ver, _ := m.resolveVer(o.Key, o.Ver)
 		err, returned := m.be.RunWait(o.Key, ver)
+		if errors.Is(err, ErrWatchdog) {
+			return &Vio{"inconclusive/" + be + "/Wait", fmt.Sprintf("%s: harness watchdog (120 s) - neither returned nor seen parked", o)}
+		}
 		want := "ErrNotExist"
 		if m.present(o.Key) != nil {
 			want = "nil"
